@@ -114,6 +114,12 @@ func tryFastCompare(expression string) *fastCompare {
 		if err != nil {
 			return nil
 		}
+		if n >= maxExactFloatInt || n <= -maxExactFloatInt {
+			// from 2^53 on float64 no longer represents every integer (2^53+1
+			// parses to 2^53); the general evaluator compares integers exactly,
+			// so leave such literals to it
+			return nil
+		}
 		return &fastCompare{field: m[1], op: m[2], numLit: n}
 	}
 	if m := fastFieldOpStr.FindStringSubmatch(expression); m != nil {
@@ -234,6 +240,11 @@ func tryFastCompound(expression string) *fastCompound {
 	return &fastCompound{op: op, parts: compares}
 }
 
+// maxExactFloatInt is 2^53: every integer of smaller magnitude is exactly
+// representable as a float64, so comparing through float64 decides like an
+// exact integer comparison. Larger integers are left to the general evaluator.
+const maxExactFloatInt = 1 << 53
+
 func toFloat64Fast(v any) (float64, bool) {
 	switch x := v.(type) {
 	case float64:
@@ -241,14 +252,26 @@ func toFloat64Fast(v any) (float64, bool) {
 	case float32:
 		return float64(x), true
 	case int:
+		if x > maxExactFloatInt || x < -maxExactFloatInt {
+			return 0, false
+		}
 		return float64(x), true
 	case int64:
+		if x > maxExactFloatInt || x < -maxExactFloatInt {
+			return 0, false
+		}
 		return float64(x), true
 	case int32:
 		return float64(x), true
 	case uint:
+		if x > maxExactFloatInt {
+			return 0, false
+		}
 		return float64(x), true
 	case uint64:
+		if x > maxExactFloatInt {
+			return 0, false
+		}
 		return float64(x), true
 	case uint32:
 		return float64(x), true
